@@ -109,6 +109,9 @@ func (fc *fnCtx) anchorB(st *state, kind string, ins ssa.Instruction, bind map[s
 		if p, ok := fc.prov[ch.T]; ok && strings.HasSuffix(p, "!"+arg) {
 			return true
 		}
+		if fc.callOf[ch.T] == arg {
+			return true // the channel is the result of a call of that method/function
+		}
 		var t string
 		func() {
 			defer func() { recover() }()
@@ -298,11 +301,21 @@ func (fc *fnCtx) execCall(st *state, ins ssa.Instruction, c *ssa.CallCommon, res
 		for k := 0; k < sig.Results().Len(); k++ {
 			vals = append(vals, fc.freshVal(st, "opq", sig.Results().At(k).Type()))
 		}
+	case fc.isExternalCallee(c):
+		// code outside /repo without a contract: result unconstrained, no effect on modelled state
+		// (it cannot reach the library's unexported state except through its arguments)
+		fc.trusted["uncontracted external callee "+name+" (result unconstrained, no effect on modelled state)"] = true
+		for k := 0; k < sig.Results().Len(); k++ {
+			vals = append(vals, fc.freshVal(st, "ext", sig.Results().At(k).Type()))
+		}
 	default:
 		unsup("call to %s has no contract", name)
 	}
 	for k := range vals {
 		bind[fmt.Sprintf("$result%d", k)] = vals[k]
+		if vals[k].S == "V" {
+			fc.callOf[vals[k].T] = short
+		}
 	}
 	if len(vals) > 0 {
 		bind["$result"] = vals[0]
@@ -434,12 +447,20 @@ func (fc *fnCtx) applyContract(st *state, blk *block, bind map[string]Val, sig *
 //                               x.f[] (contents of the map stored in x.f)
 //                               x[]   (contents of map x)
 type lvalue struct {
+	chKind string    // sent rcvd closed full: channel ghost state
+	ch     Val
 	addr  *Addr      // field location
 	mref  string     // map reference
 	mtype *types.Map // map contents
 }
 
 func (fc *fnCtx) evalLvalue(text string, ev *evalCtx) lvalue {
+	for _, k := range []string{"sent", "rcvd", "closed", "full"} {
+		if strings.HasPrefix(text, k+"(") && strings.HasSuffix(text, ")") {
+			ch := fc.evalHole(text[len(k)+1:len(text)-1], ev)
+			return lvalue{chKind: k, ch: ch}
+		}
+	}
 	isMap := strings.HasSuffix(text, "[]")
 	src := strings.TrimSuffix(text, "[]")
 	if isMap {
@@ -474,6 +495,24 @@ func (fc *fnCtx) evalLvalue(text string, ev *evalCtx) lvalue {
 
 func (fc *fnCtx) havocLvalue(st *state, text string, ev *evalCtx) {
 	lv := fc.evalLvalue(text, ev)
+	if lv.chKind != "" {
+		switch lv.chKind {
+		case "closed", "full":
+			hv := "ch!" + lv.chKind
+			fc.setHeap(st, hv, "(Array V Bool)", fmt.Sprintf("(store %s %s %s)", fc.heapVar(st, hv, "(Array V Bool)"), lv.ch.T, fc.fresh("hvb", "Bool")))
+		default:
+			ct, ok := lv.ch.Ty.Underlying().(*types.Chan)
+			if !ok {
+				panic(unsupported{"modifies " + text + ": not a channel"})
+			}
+			es := fc.sortOf(ct.Elem())
+			hv, hs := fc.seqVar(lv.chKind, es)
+			nv := fc.fresh("hvs", "(Slice "+es+")")
+			fc.assume(st, fmt.Sprintf("(>= (slen %s) 0)", nv))
+			fc.setHeap(st, hv, hs, fmt.Sprintf("(store %s %s %s)", fc.heapVar(st, hv, hs), lv.ch.T, nv))
+		}
+		return
+	}
 	if lv.mtype != nil {
 		dom, val, ds, vs := fc.mapVars(lv.mtype)
 		ks, es := fc.sortOf(lv.mtype.Key()), fc.sortOf(lv.mtype.Elem())
@@ -638,4 +677,23 @@ func (fc *fnCtx) sortSlice(st *state, c *ssa.CallCommon, ins ssa.Instruction) {
 		r.T, pinv, pinv, r.T, r.T, pinv, old.T, pi, pinv, old.T))
 	fc.store(st, target, r)
 	fc.trusted["sort.Slice: the slice variable is rebound to a permutation of its old value (order not modelled)"] = true
+}
+
+// isExternalCallee: the callee is declared outside the packages of /repo.
+func (fc *fnCtx) isExternalCallee(c *ssa.CallCommon) bool {
+	inRepo := func(p *types.Package) bool {
+		return p != nil && strings.HasPrefix(p.Path(), "github.com/boz/kcache")
+	}
+	if c.IsInvoke() {
+		return !inRepo(c.Method.Pkg())
+	}
+	if f, ok := c.Value.(*ssa.Function); ok {
+		if f.Pkg != nil {
+			return !inRepo(f.Pkg.Pkg)
+		}
+		if f.Object() != nil {
+			return !inRepo(f.Object().Pkg())
+		}
+	}
+	return false
 }
